@@ -980,7 +980,9 @@ def check_C05(ck):
     rng = random.Random(repr((ck.seed, "C05")))
     scripts = load_corpus("C05")
     meta = {}
-    n = tier_n(ck, 350, 4000)
+    # thorough sizes are bounded by memory: the multiplier streams replayed to the model make a script cost about 6 MB
+    # in this process (10 000 scripts needed 49 GB); 2 600 scripts stay near 16 GB
+    n = tier_n(ck, 350, 1200)
     maxsize = tier_n(ck, 300, 900)
     for i in range(n):
         pol = rng.choice(["fast", "checked", "checked", "indirect", "backward"])
@@ -1047,7 +1049,7 @@ def check_C05(ck):
         meta[name] = (pol, fam, size, history)
     # small-set replacement battery: unload everything, load a disjoint set of about the same size
     # (the hash search then tends to succeed at its first attempt, with the previous tables around)
-    for i in range(tier_n(ck, 160, 3000)):
+    for i in range(tier_n(ck, 160, 800)):
         fam = ID_FAMILIES[i % len(ID_FAMILIES)]
         a, b = rng.choice([(1, 1), (2, 2), (3, 3), (2, 3), (3, 2), (4, 4), (5, 6), (1, 2)])
         pool = [x[0] for x in gen.make_ids(rng, a + b + 2, "checked", fam)]
@@ -1070,7 +1072,7 @@ def check_C05(ck):
         meta[name] = ("checked", fam, a, [sorted(s1), sorted(s2)])
     # classes with several type ids (one class seen under different ids, e.g. one type_info per shared object): the
     # search hashes every id of every class, and all of them must end up in buckets of their own
-    for i in range(tier_n(ck, 150, 2500)):
+    for i in range(tier_n(ck, 150, 600)):
         ncls = rng.randint(2, 30)
         groups = gen.make_ids(rng, ncls, "proj")
         # more aliases than make_ids draws by default, on some classes
